@@ -21,8 +21,13 @@
 
 #include <exception>
 
-#ifndef NCYC
-#define NCYC 4
+// One binary covers several configurations {KEYT, NCYC} (enumerated first):
+//   KEYT key type: 0 = Int, 1 = Str ("k0".."k3");  NCYC cycles in which the sources act
+//   With Int keys the unmatched key 3 is only scripted when a default branch exists: the error message of the
+//   unmatched-key exception renders an Int through std::ostringstream, which symx cannot execute; the error
+//   case is therefore exercised with Str keys.
+#ifndef CONFIGS
+#define CONFIGS {0, 4}, {1, 3}
 #endif
 #ifndef RELOADS     // 1: reload_on_ticked=false only; 2: both
 #define RELOADS 2
@@ -35,6 +40,20 @@ using namespace hk;
 
 namespace {
 using U = std::uint64_t;
+struct Cfg { int keyt, ncyc; };
+constexpr Cfg CFGS[] = {CONFIGS};
+constexpr int NCFG = sizeof(CFGS) / sizeof(CFGS[0]);
+Cfg G{};
+int NCYC = 0;
+template <class Key> struct KeyOps;
+template <> struct KeyOps<Int> {
+    static Int mk(int k) { return Int{k}; }
+    static Int code(const Int &k) { return k; }
+};
+template <> struct KeyOps<Str> {
+    static Str mk(int k) { return Str{"k"} + (char)('0' + k); }
+    static Int code(const Str &k) { return (Int)(k[1] - '0'); }
+};
 constexpr int NB = 4;  // branch codes: 0 inc, 1 sum, 2 sched, 3 default(keyed)
 bool g_reload = false, g_default = false;
 // ---- script of the current cycle ----
@@ -100,26 +119,26 @@ struct BSched {
         out.set((Int)((U)x.value() + 100 * (U)wakes));
     }
 };
-struct BKeyed {
+template <class Key> struct BKeyed {
     static constexpr auto name = "b_keyed";
     static constexpr std::array<std::string_view, 2> hk_param_names{"key", "x"};
-    static void eval(In<"key", TS<Int>> key, In<"x", TS<Int>> x, State<Int> n, Out<TS<Int>> out) {
+    static void eval(In<"key", TS<Key>> key, In<"x", TS<Int>> x, State<Int> n, Out<TS<Int>> out) {
         g_fresh_seen[3] = (n.get() == 0);
         g_evals[3]++;
         n.set(n.get() + 1);
-        out.set((Int)((U)key.value() * 1000 + (U)x.value()));
+        out.set((Int)((U)KeyOps<Key>::code(key.value()) * 1000 + (U)x.value()));
     }
 };
 
 // ---- scripted sources ----
-struct KeySrc {
+template <class Key> struct KeySrc {
     static constexpr auto name = "key_src";
     static constexpr bool schedule_on_start = true;
-    static void eval(NodeScheduler s, State<Int> n, Out<TS<Int>> out) {
+    static void eval(NodeScheduler s, State<Int> n, Out<TS<Key>> out) {
         Int c = n.get();
         g_cur_cycle = c;
-        int a = verif_choice("key", 5);
-        if (a > 0) { out.set(Int{a - 1}); g_key_tick = a - 1; }
+        int a = verif_choice("key", (g_default || G.keyt == 1) ? 5 : 4);
+        if (a > 0) { out.set(KeyOps<Key>::mk(a - 1)); g_key_tick = a - 1; }
         n.set(c + 1);
         if (c + 1 < NCYC) s.schedule(MIN_TD);
     }
@@ -241,19 +260,22 @@ struct Checker {
     }
 };
 
+template <class Key> WiringPortRef wire_the_switch(Wiring &w, const Port<TS<Int>> &v) {
+    auto k = wire<KeySrc<Key>>(w);
+    stdlib::SwitchCases cases;
+    cases.cases.push_back(stdlib::SwitchCase{Value{KeyOps<Key>::mk(0)}, FnN<BInc, 1>::make()});
+    cases.cases.push_back(stdlib::SwitchCase{Value{KeyOps<Key>::mk(1)}, FnN<BSum, 1>::make()});
+    cases.cases.push_back(stdlib::SwitchCase{Value{KeyOps<Key>::mk(2)}, FnN<BSched, 1>::make()});
+    if (g_default) cases.default_branch = FnN<BKeyed<Key>, 2>::make();
+    cases.reload_on_ticked = g_reload;
+    return ho::wire_switch(w, k.erased(), cases, {v.erased()}, {}, true);
+}
 struct Top {
     static constexpr auto name = "top";
     static void compose(Wiring &w) {
-        auto k = wire<KeySrc>(w);
         auto v = wire<ValSrc>(w);
         auto clk = wire<Clock>(w);
-        stdlib::SwitchCases cases;
-        cases.cases.push_back(stdlib::SwitchCase{Value{Int{0}}, FnN<BInc, 1>::make()});
-        cases.cases.push_back(stdlib::SwitchCase{Value{Int{1}}, FnN<BSum, 1>::make()});
-        cases.cases.push_back(stdlib::SwitchCase{Value{Int{2}}, FnN<BSched, 1>::make()});
-        if (g_default) cases.default_branch = FnN<BKeyed, 2>::make();
-        cases.reload_on_ticked = g_reload;
-        WiringPortRef s = ho::wire_switch(w, k.erased(), cases, {v.erased()}, {}, true);
+        WiringPortRef s = G.keyt == 0 ? wire_the_switch<Int>(w, v) : wire_the_switch<Str>(w, v);
         Port<TS<Int>> sp{w, s};
         auto o = wire<Obs>(w, sp);
         wire<Checker>(w, clk, sp, o);
@@ -263,6 +285,8 @@ struct Top {
 
 extern "C" int harness_main() {
     register_ho_scalars();
+    G = CFGS[NCFG > 1 ? verif_choice("cfg", NCFG) : 0];
+    NCYC = G.ncyc;
     g_reload = RELOADS > 1 ? verif_choice("reload", 2) == 1 : false;
     g_default = DEFAULTS > 1 ? verif_choice("default", 2) == 1 : false;
     bool thrown = false;
